@@ -254,6 +254,12 @@ def run(model: RepoModel, rep, tier: str):
              and "new_call_site" in norm(n.args[0]) for n in ast.walk(gss.tree))
     (rep.holds if ok else rep.violation)("C09.R3", key, gss.rel, 0,
                                          "get_method_summary_instance(new_call_site.hash())" if ok else "the callee summary is not fetched by (caller, call statement, callee)")
+    # the state-level merge hands out a fresh set (shared with C06.R2)
+    from .c06 import check_merge_fresh
+    check_merge_fresh(model, rep, "C09.R2", "collect_in_state_bits", "in_state_bits", "out_state_bits")
+    # union over paths / over argument states: shared with C08.R4
+    from .c08 import check_accumulating_loops
+    check_accumulating_loops(model, rep, "C09.R4")
 
 
 # ---------------------------------------------------------------- self-test mutants
@@ -272,4 +278,8 @@ MUTANTS = [
     ("context-without-call-stmt", "common_structs.py", _t("        self.call_site = CallSite(self.caller_id, self.call_stmt_id, self.method_id)", "        self.call_site = CallSite(self.caller_id, 0, self.method_id)"), "ComputeFrame"),
     ("state-kill-includes-own", "core/prelim_semantics.py", _t("            if each_def_state.index not in new_defined_state_set:\n                all_def_stmt_except_current_stmt.add(each_def_state)", "            all_def_stmt_except_current_stmt.add(each_def_state)"),
      "update_current_state_bit"),
+    ("param-binding-first-match-only", "core/global_stmt_states.py",
+     _t("                    self.add_arg_to_param_edge(each_pair, status, parameter_name_symbol)\n",
+        "                    self.add_arg_to_param_edge(each_pair, status, parameter_name_symbol)\n                    break\n"),
+     "C09.R4"),
 ]
